@@ -159,6 +159,24 @@ def run(ctx):
             else:
                 multi_ok += 1
         ctx.cov["multi_file_queries_ok"] = multi_ok
+        # the CLI's symbol rows start with the entry's index in its table, whatever the query did in between
+        import re as _re
+        im = ctx.impl("plain")
+        cli_ok = 0
+        for k in sorted(per_file)[:(6 if ctx.tier == "quick" else 60)]:
+            path = os.path.join(work, "s%d.o" % k)
+            nsym = len(per_file[k])
+            for q, want in (("symbol", list(range(nsym))), ("[symbol] relem", list(range(nsym - 1, -1, -1))),
+                            ("[symbol ?(pos != 0)] elem", list(range(1, nsym))), ("symbol ?(pos == %d)" % (nsym - 1), [nsym - 1])):
+                r = subprocess.run([im.dwgrep, path, "-e", q], stdout=subprocess.PIPE, stderr=subprocess.PIPE, text=True, errors="replace", timeout=60)
+                gotn = [int(m.group(1)) for m in (_re.match(r"^(\d+):\t", l) for l in r.stdout.split("\n")) if m]
+                if gotn != want:
+                    ctx.violation("dwgrep -e %r on a %s object with %d symbols prints the rows numbered %r; their table indices are %r"
+                                  % (q, per_machine[k], nsym, gotn[:12], want[:12]),
+                                  {"stream": "C18-cli", "input": inp(path, q), "got": gotn[:40], "expected": want[:40]})
+                else:
+                    cli_ok += 1
+        ctx.cov["cli_row_numbers_ok"] = cli_ok
         # ar archives: one Dwarf with several modules — `symbol` walks every member's table from its first entry
         ar_ok = 0
         bymach = {}
